@@ -116,6 +116,10 @@ MustFind(c) == \/ MemAns(c).found
                \/ \E i \in 1..Len(cols) : /\ cols[i].key # 0
                                           /\ \E e \in cols[i].table : e[1] = Pfx(c, cols[i].key) /\ XC[e[3]][e[4]] = c
 
+\* some place a query looks at holds the chunk: the memory shard or a registered shard
+Held(c) == \/ \E x \in mem : c \in ChunksOfX(x)
+           \/ \E i \in 1..Len(cols) : \E j \in 1..Len(cols[i].shards) : \E x \in cols[i].shards[j].xorbs : c \in ChunksOfX(x)
+
 (* ---- properties ---- *)
 AllShards == disk \cup Ext
 ShardById(id) == CHOOSE s \in AllShards : s.id = id
